@@ -106,6 +106,15 @@ impl TxIn {
             Err(e) => return Err(BSVErrors::DeserialiseTxIn("unlocking_script_size".to_string(), e)),
         };
 
+        // Never allocate more than the input can still provide
+        let remaining = (cursor.get_ref().len() as u64).saturating_sub(cursor.position());
+        if unlocking_script_size > remaining {
+            return Err(BSVErrors::DeserialiseTxIn(
+                "unlocking_script".to_string(),
+                std::io::Error::new(std::io::ErrorKind::UnexpectedEof, "declared script size is larger than the remaining input"),
+            ));
+        }
+
         // Script Sig
         let mut unlocking_script = vec![0; unlocking_script_size as usize];
         if let Err(e) = cursor.read(&mut unlocking_script) {
